@@ -435,3 +435,78 @@ def rule_default_kind(prog, rep, tier, scope=None):
                     "%s is applied to the IR default %s with no test that it is a str: an int, float or bool default (5, True - both truthy) raises here, "
                     "e.g. for a function that returns a literal" % (what, src(target, 50)), loc(prog, node)))
     rep.ob("DEFAULT-KIND", "%d str-only operations on reads of 'default' in %d functions" % (n, len(fns)), "holds", "", "listed above")
+
+
+# ---------------------------------------------------------------------------- AST-LEAK
+AST_KIND_NAMES = {"AST", "expr", "UnaryOp", "BinOp", "Call", "Name", "Attribute", "Tuple", "List", "Dict", "Set", "Subscript", "Lambda", "Str", "Num", "Constant", "NameConstant",
+                  "Bytes", "JoinedStr"}
+CONVERTERS = {"get_value", "literal_eval", "to_code", "parse_to_scalar", "format", "str", "repr", "unparse"}
+
+
+def rule_ast_leak(prog, rep, tier, anchors=("docstring_parsers._infer_default",)):
+    """AST-LEAK (C03, C07): the reader's default post-processing receives defaults taken from a signature as syntax nodes
+    (`-1` is a UnaryOp, `len(xs)` a Call) and must hand back values or code-quoted text.  On every path through the function on
+    which the default can still be a syntax node - no branch condition has said it is a str / a constant node / None-like, no
+    statement has converted it (get_value, literal_eval, to_code, formatting) - the function may not return: a path that
+    assigns something that lets nodes through (`unquote`) or skips the node branch leaves a raw `ast` object in the IR."""
+    from sa.cfg import CFG, facts
+    from sa.rules.falsy import _is_default_read
+    for q in anchors:
+        fi = prog.fn(q)
+        cfg = CFG(fi.node)
+        n_paths = 0
+        leaks = []
+        for path in cfg.paths():
+            if path[-1][0].kind != "RETURN":
+                continue
+            n_paths += 1
+            may_be_node = True
+            left_at = None
+            for node, label in path:
+                st = node.stmt
+                # statements that rewrite the default
+                if isinstance(st, ast.Assign) and any(_is_default_read(t) for t in st.targets) and node.kind not in ("if", "for", "while", "try"):
+                    v = st.value
+                    conv = any(isinstance(c, ast.Call) and getattr(c.func, "id", getattr(c.func, "attr", None)) in CONVERTERS for c in ast.walk(v)) \
+                        or isinstance(v, (ast.Constant, ast.JoinedStr)) or (isinstance(v, ast.Name) and not _is_default_read(v))
+                    if conv:
+                        may_be_node = False
+                    else:
+                        left_at = st  # e.g. unquote(default): a node passes through unchanged
+                if label is None or label[0] in ("iter", "except"):
+                    if label is not None and label[0] == "except":
+                        # the handler of a failed conversion: what it assigns is judged by the Assign case above
+                        pass
+                    continue
+                for atom, pol in facts(label[0], label[1]):
+                    if isinstance(atom, ast.Call) and isinstance(atom.func, ast.Name) and atom.func.id == "isinstance" and len(atom.args) == 2 and _is_default_read(atom.args[0]):
+                        names = {x.id for x in ast.walk(atom.args[1]) if isinstance(x, ast.Name)} | {x.attr for x in ast.walk(atom.args[1]) if isinstance(x, ast.Attribute)}
+                        if pol and names & {"str", "int", "float", "bool", "complex"} and not (names & AST_KIND_NAMES):
+                            may_be_node = False
+                        if not pol and "AST" in names:
+                            may_be_node = False
+                    elif isinstance(atom, ast.Compare) and len(atom.ops) == 1 and isinstance(atom.ops[0], (ast.In, ast.Eq, ast.Is)) and _is_default_read(atom.left) and pol:
+                        may_be_node = False  # equal to / among plain values: not a node
+                    elif isinstance(atom, ast.Call) and atom.args and _is_default_read(atom.args[0]) and pol and isinstance(atom.func, (ast.Name, ast.Attribute)):
+                        # a package predicate that only a str satisfies (code_quoted)
+                        for t in prog.resolve_expr_fn(atom.func, atom):
+                            if isinstance(t, FunctionInfo) and t.params() and any(
+                                    isinstance(c, ast.Call) and isinstance(c.func, ast.Name) and c.func.id == "isinstance" and len(c.args) == 2
+                                    and isinstance(c.args[0], ast.Name) and c.args[0].id == t.params()[0] and "str" in {x.id for x in ast.walk(c.args[1]) if isinstance(x, ast.Name)}
+                                    for c in ast.walk(t.node)):
+                                may_be_node = False
+            if may_be_node:
+                leaks.append((path, left_at))
+        if n_paths == 0:
+            raise AnalysisError("AST-LEAK: no returning path in %s" % q)
+        if leaks:
+            path, left_at = leaks[0]
+            taken = [src(l[0], 40) + (" is true" if l[1] else " is false") for n_, l in path if l is not None and l[0] not in ("iter", "except")][:6]
+            rep.violation(Finding(
+                "AST-LEAK", prog.owner_name(fi), "node-default-unconverted",
+                "%d of %d paths through %s return while the default can still be a syntax node (a signature default such as -1 or len(xs)): e.g. when %s%s. "
+                "The IR then holds a raw ast object where a value or code-quoted text belongs" % (
+                    len(leaks), n_paths, q, "; ".join(taken) or "no branch is taken",
+                    " - `%s` lets a node through unchanged" % src(left_at, 50) if left_at is not None else ""), loc(prog, left_at or fi.node)))
+        else:
+            rep.holds("AST-LEAK", "%s: %d returning paths" % (q, n_paths), loc(prog, fi.node), "on each the default is converted, or a condition has excluded a syntax node")
